@@ -880,18 +880,33 @@ fn shake_1(expression: Expression) -> Expression {
                     } else {
                         #[cfg(feature = "verif")]
                         crate::verif::hit(crate::verif::Arm::OPT_SHAKE_OR_PATTERNS_MERGED);
-                        let expression = Expression::Search(
-                            Search::RegexSet(
-                                RegexSetBuilder::new(patterns)
-                                    .case_insensitive(insensitive)
-                                    .build()
-                                    .expect("could not build regex set"),
-                                insensitive,
-                            ),
-                            field,
-                            cast,
-                        );
-                        regex_set.push(expression);
+                        // NOTE: Patterns that each compile can be too big to compile as one set,
+                        // they are then left as they are
+                        match RegexSetBuilder::new(&patterns)
+                            .case_insensitive(insensitive)
+                            .build()
+                        {
+                            Ok(set) => regex_set.push(Expression::Search(
+                                Search::RegexSet(set, insensitive),
+                                field,
+                                cast,
+                            )),
+                            Err(_) => {
+                                for pattern in patterns {
+                                    regex.push(Expression::Search(
+                                        Search::Regex(
+                                            RegexBuilder::new(&pattern)
+                                                .case_insensitive(insensitive)
+                                                .build()
+                                                .expect("could not build regex"),
+                                            insensitive,
+                                        ),
+                                        field.clone(),
+                                        cast.clone(),
+                                    ));
+                                }
+                            }
+                        }
                     }
                 }
 
